@@ -503,15 +503,22 @@ fn run_random(def: &PropDef, r: &RandomDef, cfg: &RunCfg, listed: &BTreeSet<Stri
 }
 
 /// Build one cargo-fuzz target of harness/fuzz (nightly, -O, ASan; overflow checks and debug assertions on).
-pub fn build_fuzz_target(verif_dir: &Path, name: &str) -> Result<PathBuf, String> {
+pub fn build_fuzz_target(verif_dir: &Path, name: &str, asan: bool) -> Result<PathBuf, String> {
     use std::process::Command;
     let fuzz_dir = verif_dir.join("harness").join("fuzz");
     if !fuzz_dir.join("Cargo.toml").exists() {
         return Err("fuzz package missing".into());
     }
-    let target_dir = fuzz_dir.join("target");
+    // two build configurations, two target directories: ASan for the byte-level target (its dependencies contain unsafe code),
+    // none for the tape target (ureq-proto forbids unsafe code; the run is four times faster)
+    let target_dir = fuzz_dir.join(if asan { "target" } else { "target-nosan" });
+    let mut args = vec!["+nightly", "fuzz", "build", "-O"];
+    if !asan {
+        args.extend(["-s", "none"]);
+    }
+    args.push(name);
     let build = Command::new("cargo")
-        .args(["+nightly", "fuzz", "build", "-O", name])
+        .args(&args)
         .current_dir(&fuzz_dir)
         .env("CARGO_NET_OFFLINE", "true")
         .env("CARGO_TARGET_DIR", &target_dir)
@@ -547,7 +554,7 @@ fn run_tapefuzz(def: &PropDef, cfg: &RunCfg, listed: &BTreeSet<String>, total: &
         infos.push(json!({"stage": "tapefuzz", "ran": false, "reason": "disabled by VERIF_TAPEFUZZ=0"}));
         return (infos, viols);
     }
-    let bin = match build_fuzz_target(&cfg.verif_dir, "tapefuzz") {
+    let bin = match build_fuzz_target(&cfg.verif_dir, "tapefuzz", false) {
         Ok(b) => b,
         Err(e) => {
             infos.push(json!({"stage": "tapefuzz", "ran": false, "reason": e}));
